@@ -249,6 +249,47 @@ def oracle_noninterference_offpolicy(ctx: Ctx, case):
     ctx.count(nontrivial=eff, classes=[combo] + ["effective"] * eff, key=[combo, j, case["key"] % 256])
 
 
+def oracle_independent_streams(ctx: Ctx, case):
+    """Through the real reset()/iteration(): N environments that start in the *same* state under a uniform-random policy are
+    N independent collections, so their action sequences cannot all coincide (chance 3^-32 for N=3, 16 steps); if one
+    environment's randomness is reused for another they stay in lock-step for ever."""
+    spec = case["spec"]
+    env = mdp.make_env(spec)
+    N, tags = case["E"], {"algo": case["algo"]}
+    if case["algo"] in ("PPO", "A2C", "REINFORCE"):
+        policy = onpolicy.table_policy(env, spec, case["policy"])
+        algo = onpolicy.with_gamma(onpolicy.algo_template(case["algo"], N, case["T"]), 0.9, 0.9 if case["algo"] != "REINFORCE" else None)
+        cb = StashCallback(("rollout_buffer",))
+        state = onpolicy.reset_algo(algo, env, policy, jr.key(case["key"]), cb)
+        out = onpolicy.iterate(algo, state, jr.key(case["key"] + 1), cb)
+        acts = np.asarray(out.callback_state.data["rollout_buffer"].actions).reshape(N, -1)
+        obs0 = np.asarray(jax.tree.leaves(out.callback_state.data["rollout_buffer"].observations)[0]).reshape(N, case["T"], -1)[:, 0]
+    else:
+        from checks import c05_offpolicy_collect as c05
+
+        policy = TableQPolicy(env, spec, [[0.0] * spec["nA"]] * spec["nS"], 1.0)
+        algo = _streams_dqn(N)
+        cb = StashCallback(())
+        state = c05._reset(algo, env, policy, jr.key(case["key"]), cb)
+        for k in range(3):
+            state = c05._iterate(algo, state, jr.key(case["key"] + 1 + k), cb)
+        buf = state.step_state.buffer
+        n = int(np.asarray(buf.position).reshape(-1)[0])
+        acts = np.asarray(buf.actions)[:, :n].reshape(N, -1)
+        obs0 = np.asarray(jax.tree.leaves(buf.observations)[0])[:, 0].reshape(N, -1)
+    same_start = bool(all(np.array_equal(obs0[0], obs0[i]) for i in range(N)))
+    lockstep = bool(all(np.array_equal(acts[0], acts[i]) for i in range(1, N)))
+    ctx.check(not lockstep, "C12/streams/parallel-environments-reuse-one-environments-randomness", tags=tags, N=N, steps=int(acts.shape[1]), actions=acts[0].tolist())
+    ctx.count(nontrivial=same_start and acts.shape[1] >= 16, classes=[case["algo"], f"N={N}"] + ["same_start"] * same_start, key=[case["algo"], N, case["key"]])
+
+
+@functools.lru_cache(maxsize=None)
+def _streams_dqn(E):
+    from lerax.algorithm import DQN
+
+    return DQN(buffer_size=40 * E, learning_starts=4, num_envs=E, num_steps=4, batch_size=2, learning_rate=0.0, target_update_interval=2)
+
+
 @functools.lru_cache(maxsize=None)
 def _dqn_greedy(E, S):
     from lerax.algorithm import DQN
@@ -296,7 +337,7 @@ def oracle_dqn_parallel_policy(ctx: Ctx, case):
     ctx.count(nontrivial=E > 1 and differs, classes=[f"E={E}"] + ["online_differs_from_target"] * differs + ["trained"] * moved, key=[E, S, case["key"] % 256, case["iters"]])
 
 
-PARTS = {"dqn_parallel_policy": oracle_dqn_parallel_policy, "modes": modes_case, "collect_vmapped": oracle_collect_vmapped, "noninterference": oracle_noninterference, "noninterference_offpolicy": oracle_noninterference_offpolicy}
+PARTS = {"independent_streams": oracle_independent_streams, "dqn_parallel_policy": oracle_dqn_parallel_policy, "modes": modes_case, "collect_vmapped": oracle_collect_vmapped, "noninterference": oracle_noninterference, "noninterference_offpolicy": oracle_noninterference_offpolicy}
 
 
 @st.composite
@@ -316,6 +357,18 @@ def nonint_cases(draw, config, algo, E, T):
     case = draw(rollout_cases(config, T, "some", algos=(algo,), E=E))
     case["spec"]["I"] = [True] * case["spec"]["nS"] if draw(st.booleans()) else case["spec"]["I"]
     case["j"] = draw(st.integers(0, E - 1))
+    return case
+
+
+@st.composite
+def streams_cases(draw, algo, E, T):
+    from checks.c04_onpolicy_rollout import rollout_cases
+
+    case = draw(rollout_cases("disc-onehot", T, "some", algos=(algo,) if algo != "DQN" else ("PPO",), E=E))
+    nS, nA = case["spec"]["nS"], case["spec"]["nA"]
+    case["spec"]["I"] = [i == 0 for i in range(nS)]  # one initial state: every environment starts (and restarts) identically
+    case["policy"]["logits"] = [[0.0] * nA for _ in range(nS)]  # uniform behaviour
+    case["algo"] = algo
     return case
 
 
@@ -344,7 +397,7 @@ def run(ctx: Ctx):
         "iteration() makes equals N single-environment collections slice by slice on generated finite MDPs; (b2) through "
         "iteration() (buffer captured from ctx.locals): replacing only env j's start state leaves every field of every other "
         "env's slice (incl. advantages/returns and carried state) bit-identical, on-policy (PPO/A2C/REINFORCE) and off-policy "
-        "(DQN buffers); (b3) vectorised DQN collection acts with the current online policy (greedy Q-table, learning rate 0.5, late target sync) exactly as single-environment collection does. Non-trivial: perturbation effective for env j and an episode end in another env."
+        "(DQN buffers); (b4) N environments started in the same state under a uniform policy never run in lock-step through reset()/iteration() (on-policy and DQN); (b3) vectorised DQN collection acts with the current online policy (greedy Q-table, learning rate 0.5, late target sync) exactly as single-environment collection does. Non-trivial: perturbation effective for env j and an episode end in another env."
     )
     ctx.assumptions = ["float32 default mode; tolerance rtol 1e-5/atol 1e-6 element-wise (classic) and 2e-3/2e-4 norm-wise per leaf (MuJoCo / G1 single transitions)"]
     rng = np.random.default_rng(ctx.seed + 12)
@@ -366,6 +419,8 @@ def run(ctx: Ctx):
     for config, algo, N, T in plan:
         ctx.run_given("collect_vmapped", collect_cases(config, algo, N, T), oracle_collect_vmapped, ctx.n(30, 500), shrink=False)
         ctx.run_given("noninterference", nonint_cases(config, algo, N, T), oracle_noninterference, ctx.n(30, 500), shrink=False)
+    for algo, E, T in (("PPO", 3, 16), ("DQN", 3, 16)) if ctx.quick else (("PPO", 3, 16), ("A2C", 2, 32), ("REINFORCE", 4, 16), ("DQN", 3, 16), ("DQN", 2, 16)):
+        ctx.run_given("independent_streams", streams_cases(algo, E, T), oracle_independent_streams, ctx.n(15, 300), shrink=False)
     for combo in ("dqn-3env-wrap", "dqn-2env-ls0"):
         ctx.run_given("noninterference_offpolicy", offpolicy_cases(combo), oracle_noninterference_offpolicy, ctx.n(25, 400), shrink=False)
     for E, S in ((3, 2), (1, 2)) if ctx.quick else ((3, 2), (1, 2), (2, 3), (4, 1)):
